@@ -134,6 +134,13 @@ struct carquet_column_reader {
     /* Retained page data for BYTE_ARRAY value pointers */
     uint8_t* page_data_for_values;
 
+    /* Page data replaced while a read call went on to further pages. Values that
+     * call already handed to the caller still point into these buffers, so they
+     * are only released by the next call on this reader (or when it is freed). */
+    uint8_t** retired_page_data;
+    int32_t num_retired_page_data;
+    int32_t retired_page_data_capacity;
+
     /* Current page state for partial reads */
     bool page_loaded;           /* Is a page currently loaded? */
     int32_t page_num_values;    /* Total values in current page */
@@ -164,6 +171,11 @@ carquet_schema_t* build_schema(
     carquet_arena_t* arena,
     const parquet_file_metadata_t* metadata,
     carquet_error_t* error);
+
+/**
+ * Release the page data buffers retired by the previous read call.
+ */
+void carquet_column_release_retired_pages(carquet_column_reader_t* reader);
 
 /**
  * Open file with memory mapping.
